@@ -8,9 +8,9 @@
      input, computed here by Coq.Sorting.Mergesort (DictProofs.v: the result
      is sorted and a permutation, and the sorted permutation is unique);
    * a C array that is only indexed (`dict->values[mid]`, `dictValues[index]`)
-     is a finite map index -> value (`arr`, a PositiveMap) built once from the
-     list (`arr_of_list`), so that the extracted model reads it in O(log n);
-     DictProofs.arr_get_of_list: `arr_get (arr_of_list l) i = nth i l 0`;
+     is a finite map index -> value (`dict_arr`, a PositiveMap) built once from the
+     list (`dict_arr_of_list`), so that the extracted model reads it in O(log n);
+     DictProofs.arr_get_of_list: `dict_arr_get (dict_arr_of_list l) i = nth i l 0`;
    * decoders read at the current pointer = the remaining list, `avail` is
      `end - ptr`; they report the allocation requests they make (bytes);
    * fuel of the bounded decoders is the declared input length. *)
@@ -22,18 +22,18 @@ Local Open Scope N_scope.
 Definition dict_max_size : N := 1048576.
 
 (* ---------------------------------------------------------------- arrays *)
-Definition arr := PositiveMap.t N.
-Fixpoint arr_fill (l : list N) (i : N) (a : arr) : arr :=
+Definition dict_arr := PositiveMap.t N.
+Fixpoint dict_arr_fill (l : list N) (i : N) (a : dict_arr) : dict_arr :=
   match l with
   | [] => a
-  | x :: t => arr_fill t (i + 1) (PositiveMap.add (N.succ_pos i) x a)
+  | x :: t => dict_arr_fill t (i + 1) (PositiveMap.add (N.succ_pos i) x a)
   end.
-Definition arr_of_list (l : list N) : arr := arr_fill l 0 (PositiveMap.empty N).
-Definition arr_get (a : arr) (i : N) : N :=
+Definition dict_arr_of_list (l : list N) : dict_arr := dict_arr_fill l 0 (PositiveMap.empty N).
+Definition dict_arr_get (a : dict_arr) (i : N) : N :=
   match PositiveMap.find (N.succ_pos i) a with Some v => v | None => 0 end.
 
 (* ---------------------------------------------------------------- qsort *)
-Module NOrder <: TotalLeBool.
+Module DictNOrder <: TotalLeBool.
   Definition t := N.
   Definition leb := N.leb.
   Theorem leb_total : forall a1 a2, leb a1 a2 = true \/ leb a2 a1 = true.
@@ -41,94 +41,94 @@ Module NOrder <: TotalLeBool.
     intros a1 a2. unfold leb. destruct (N.leb_spec a1 a2) as [H|H]; [left; reflexivity|right].
     apply N.leb_le. apply N.lt_le_incl. exact H.
   Qed.
-End NOrder.
-Module NSort := Sort NOrder.
+End DictNOrder.
+Module DictNSort := Sort DictNOrder.
 (* qsort(sorted, count, 8, compareUint64) *)
-Definition qsort64 (l : list N) : list N := NSort.sort l.
+Definition dict_qsort64 (l : list N) : list N := DictNSort.sort l.
 
 (* the two `if (i == 0 || sorted[i] != sorted[i-1])` loops of varintDictBuild
    over a sorted array: the kept elements *)
-Fixpoint uniq_loop (prev : N) (l : list N) : list N :=
+Fixpoint dict_uniq_loop (prev : N) (l : list N) : list N :=
   match l with
   | [] => []
-  | x :: t => if x =? prev then uniq_loop prev t else x :: uniq_loop x t
+  | x :: t => if x =? prev then dict_uniq_loop prev t else x :: dict_uniq_loop x t
   end.
-Definition uniq_sorted (l : list N) : list N :=
+Definition dict_uniq_sorted (l : list N) : list N :=
   match l with
   | [] => []
-  | x :: t => x :: uniq_loop x t
+  | x :: t => x :: dict_uniq_loop x t
   end.
 
 (* varintDict as filled by varintDictBuild: values[0..size), size, indexWidth
    (capacity is not observable) *)
-Record dict := mk_dict { d_values : list N; d_size : N; d_index_width : nat }.
+Record dict := mk_dict { dct_values : list N; dct_size : N; dct_index_width : nat }.
 
 (* `varintExternalUnsignedEncoding(size - 1, indexWidth)`, VARINT_WIDTH_8B
    for size 0 *)
 Definition dict_index_width (size : N) : nat :=
   if size =? 0 then 1%nat else ext_width (size - 1).
 
-Inductive build_res :=
-| BuildFail                 (* return -1 *)
-| BuildOverflow             (* `uint32_t unique` wrapped: 2^32 or more distinct
+Inductive dict_build_res :=
+| DictBuildFail                 (* return -1 *)
+| DictBuildOverflow             (* `uint32_t unique` wrapped: 2^32 or more distinct
                                values; the extraction loop then writes past
                                the reallocated array (not reachable with less
                                than 32 GiB of input; theorems exclude it) *)
-| BuildOk (d : dict).
+| DictBuildOk (d : dict).
 
 (* varintDictBuild (after fix F05: more than VARINT_DICT_MAX_SIZE distinct
    values is a failure) *)
-Definition dict_build (values : list N) : build_res :=
+Definition dict_build (values : list N) : dict_build_res :=
   match values with
-  | [] => BuildFail
+  | [] => DictBuildFail
   | _ =>
-      let sorted := qsort64 values in
-      let u := uniq_sorted sorted in
+      let sorted := dict_qsort64 values in
+      let u := dict_uniq_sorted sorted in
       let nu := N.of_nat (length u) in
-      if 4294967296 <=? nu then BuildOverflow
+      if 4294967296 <=? nu then DictBuildOverflow
       else
         let unique := u32 nu in
-        if dict_max_size <? unique then BuildFail
-        else BuildOk (mk_dict u unique (dict_index_width unique))
+        if dict_max_size <? unique then DictBuildFail
+        else DictBuildOk (mk_dict u unique (dict_index_width unique))
   end.
 
 (* (int32_t)x for a uint32_t x *)
-Definition to_s32 (x : N) : Z :=
+Definition dict_to_s32 (x : N) : Z :=
   if x <? 2147483648 then Z.of_N x else (Z.of_N x - 4294967296)%Z.
 
 (* binarySearch(values, size, target): int32_t left/right/mid.  left <= right
    inside the loop, where C's `(right - left) / 2` is Z.div2 (= `/ 2`,
    Z.div2_div; much faster than Z.div in the extracted model).  Fuel 33 >= number of
    halvings of an int32 range; None = out of fuel (excluded by theorems). *)
-Fixpoint bsearch_loop (fuel : nat) (a : arr) (target : N) (left right : Z) : option Z :=
+Fixpoint dict_bsearch_loop (fuel : nat) (a : dict_arr) (target : N) (left right : Z) : option Z :=
   match fuel with
   | O => None
   | S f =>
       if (left <=? right)%Z then
         let mid := (left + Z.div2 (right - left))%Z in
-        let v := arr_get a (Z.to_N mid) in
+        let v := dict_arr_get a (Z.to_N mid) in
         if v =? target then Some mid
-        else if v <? target then bsearch_loop f a target (mid + 1)%Z right
-        else bsearch_loop f a target left (mid - 1)%Z
+        else if v <? target then dict_bsearch_loop f a target (mid + 1)%Z right
+        else dict_bsearch_loop f a target left (mid - 1)%Z
       else Some (-1)%Z
   end.
-Definition binary_search (a : arr) (size : N) (target : N) : option Z :=
-  bsearch_loop 33 a target 0%Z (to_s32 (u32 (size + 4294967296 - 1))).
+Definition dict_binary_search (a : dict_arr) (size : N) (target : N) : option Z :=
+  dict_bsearch_loop 33 a target 0%Z (dict_to_s32 (u32 (size + 4294967296 - 1))).
 
 (* varintDictFind on the indexed array of d; (-1) = not found *)
-Definition dict_find_arr (a : arr) (size : N) (value : N) : option Z :=
-  if size =? 0 then Some (-1)%Z else binary_search a size value.
+Definition dict_find_arr (a : dict_arr) (size : N) (value : N) : option Z :=
+  if size =? 0 then Some (-1)%Z else dict_binary_search a size value.
 Definition dict_find (d : dict) (value : N) : option Z :=
-  dict_find_arr (arr_of_list (d_values d)) (d_size d) value.
+  dict_find_arr (dict_arr_of_list (dct_values d)) (dct_size d) value.
 
 (* varintDictLookup *)
 Definition dict_lookup (d : dict) (index : N) : N :=
-  if d_size d <=? index then 0 else nth (N.to_nat index) (d_values d) 0.
+  if dct_size d <=? index then 0 else nth (N.to_nat index) (dct_values d) 0.
 
 (* varintExternalPutFixedWidthQuick_(ptr, index, width): widths 1..3 inline,
    otherwise varintExternalPutFixedWidth = the low `width` bytes, little
    endian *)
-Definition ext_put_quick (v : N) (width : nat) : list N :=
+Definition dict_ext_put_quick (v : N) (width : nat) : list N :=
   match width with
   | 1%nat => [u8 v]
   | 2%nat => [N.land v 255; N.land (shr v 8) 255]
@@ -137,7 +137,7 @@ Definition ext_put_quick (v : N) (width : nat) : list N :=
   end.
 
 (* varintExternalGetQuick_(ptr, width, result) *)
-Definition ext_get_quick (z : list N) (width : nat) : N :=
+Definition dict_ext_get_quick (z : list N) (width : nat) : N :=
   let b i := byte_at z i in
   match width with
   | 1%nat => b 0%nat
@@ -147,7 +147,7 @@ Definition ext_get_quick (z : list N) (width : nat) : N :=
   end.
 
 (* the index loop of varintDictEncodeWithDict: (bytes written, all found) *)
-Fixpoint dict_encode_indices (a : arr) (size : N) (width : nat) (vs : list N) : list N * bool :=
+Fixpoint dict_encode_indices (a : dict_arr) (size : N) (width : nat) (vs : list N) : list N * bool :=
   match vs with
   | [] => ([], true)
   | v :: t =>
@@ -156,7 +156,7 @@ Fixpoint dict_encode_indices (a : arr) (size : N) (width : nat) (vs : list N) : 
           if (idx <? 0)%Z then ([], false)
           else
             let r := dict_encode_indices a size width t in
-            (ext_put_quick (Z.to_N idx) width ++ fst r, snd r)
+            (dict_ext_put_quick (Z.to_N idx) width ++ fst r, snd r)
       | None => ([], false)
       end
   end.
@@ -168,19 +168,19 @@ Definition dict_encode_with_dict (d : dict) (values : list N) : list N * bool :=
   match values with
   | [] => ([], false)
   | _ =>
-      if dict_max_size <? d_size d then ([], false)
+      if dict_max_size <? dct_size d then ([], false)
       else
-        let hdr := tagged_put64 (d_size d)
-                   ++ flat_map tagged_put64 (d_values d)
+        let hdr := tagged_put64 (dct_size d)
+                   ++ flat_map tagged_put64 (dct_values d)
                    ++ tagged_put64 (N.of_nat (length values)) in
-        let r := dict_encode_indices (arr_of_list (d_values d)) (d_size d) (d_index_width d) values in
+        let r := dict_encode_indices (dict_arr_of_list (dct_values d)) (dct_size d) (dct_index_width d) values in
         (hdr ++ fst r, snd r)
   end.
 
 (* varintDictEncode *)
 Definition dict_encode (values : list N) : list N * bool :=
   match dict_build values with
-  | BuildOk d => dict_encode_with_dict d values
+  | DictBuildOk d => dict_encode_with_dict d values
   | _ => ([], false)
   end.
 Definition dict_ret (r : list N * bool) : N :=
@@ -190,15 +190,15 @@ Definition dict_ret (r : list N * bool) : N :=
 Definition dict_encoded_size_with_dict (d : dict) (count : N) : N :=
   if count =? 0 then 0
   else
-    tagged_len (d_size d)
-    + fold_left (fun s v => s + tagged_len v) (d_values d) 0
+    tagged_len (dct_size d)
+    + fold_left (fun s v => s + tagged_len v) (dct_values d) 0
     + tagged_len count
-    + mul64 count (N.of_nat (d_index_width d)).
+    + mul64 count (N.of_nat (dct_index_width d)).
 
 (* varintDictEncodedSize *)
 Definition dict_encoded_size (values : list N) : N :=
   match dict_build values with
-  | BuildOk d => dict_encoded_size_with_dict d (N.of_nat (length values))
+  | DictBuildOk d => dict_encoded_size_with_dict d (N.of_nat (length values))
   | _ => 0
   end.
 
@@ -207,12 +207,12 @@ Definition dict_encoded_size (values : list N) : N :=
    None = return -1 *)
 Definition dict_get_stats (values : list N) : option (N * N * N * N * N * N) :=
   match dict_build values with
-  | BuildOk d =>
+  | DictBuildOk d =>
       let count := N.of_nat (length values) in
-      let dictBytes := tagged_len (d_size d)
-                       + fold_left (fun s v => s + tagged_len v) (d_values d) 0 in
-      let indexBytes := mul64 count (N.of_nat (d_index_width d)) in
-      Some (d_size d, count, dictBytes, indexBytes,
+      let dictBytes := tagged_len (dct_size d)
+                       + fold_left (fun s v => s + tagged_len v) (dct_values d) 0 in
+      let indexBytes := mul64 count (N.of_nat (dct_index_width d)) in
+      Some (dct_size d, count, dictBytes, indexBytes,
             dictBytes + tagged_len count + indexBytes, mul64 count 8)
   | _ => None
   end.
@@ -221,10 +221,10 @@ Definition dict_get_stats (values : list N) : option (N * N * N * N * N * N) :=
 
 (* result of the header part shared by both decoders; avail = end - ptr after
    the read of `count` (so ptr = buffer + (bufferLen - avail)) *)
-Inductive hdr_res :=
-| HFail (allocs : list N)          (* return NULL / 0 *)
-| HFuel
-| HOk (dictValues : list N) (dictSize : N) (count : N) (avail : N) (allocs : list N).
+Inductive dict_hdr_res :=
+| DictHFail (allocs : list N)          (* return NULL / 0 *)
+| DictHFuel
+| DictHOk (dictValues : list N) (dictSize : N) (count : N) (avail : N) (allocs : list N).
 
 (* `for (i = 0; i < dictSize; i++)` reading the entries with the bounded
    varintTaggedGet; z = bytes at ptr, avail = end - ptr; returns the entries
@@ -235,7 +235,7 @@ Fixpoint dict_read_entries (fuel : nat) (z : list N) (avail : N) (i dictSize : N
   | O => None
   | S f =>
       if i <? dictSize then
-        let r := tagged_get z (tagged_avail avail) in
+        let r := tagged_get z (rle_tagged_avail avail) in
         if fst r =? 0 then Some None
         else
           match dict_read_entries f (skipn (N.to_nat (fst r)) z) (avail - fst r) (i + 1) dictSize with
@@ -248,90 +248,90 @@ Fixpoint dict_read_entries (fuel : nat) (z : list N) (avail : N) (i dictSize : N
 (* common prefix of varintDictDecode / varintDictDecodeInto up to and
    including the read of `count` (after fix F12: every header read is bounded
    by end - ptr) *)
-Definition dict_read_header (z : list N) (bufferLen : N) : hdr_res :=
-  if bufferLen =? 0 then HFail []
+Definition dict_read_header (z : list N) (bufferLen : N) : dict_hdr_res :=
+  if bufferLen =? 0 then DictHFail []
   else
-    let r := tagged_get z (tagged_avail bufferLen) in
-    if fst r =? 0 then HFail []
+    let r := tagged_get z (rle_tagged_avail bufferLen) in
+    if fst r =? 0 then DictHFail []
     else
       let z1 := skipn (N.to_nat (fst r)) z in
       let avail1 := bufferLen - fst r in
-      if dict_max_size <? snd r then HFail []
+      if dict_max_size <? snd r then DictHFail []
       else
         let dictSize := u32 (snd r) in
         let allocs := [mul64 dictSize 8] in
         match dict_read_entries (S (N.to_nat bufferLen)) z1 avail1 0 dictSize with
-        | None => HFuel
-        | Some None => HFail allocs
+        | None => DictHFuel
+        | Some None => DictHFail allocs
         | Some (Some (vs, avail2)) =>
             let z2 := skipn (N.to_nat (avail1 - avail2)) z1 in
-            let rc := tagged_get z2 (tagged_avail avail2) in
-            if fst rc =? 0 then HFail allocs
-            else HOk vs dictSize (snd rc) (avail2 - fst rc) allocs
+            let rc := tagged_get z2 (rle_tagged_avail avail2) in
+            if fst rc =? 0 then DictHFail allocs
+            else DictHOk vs dictSize (snd rc) (avail2 - fst rc) allocs
         end.
 
 (* index loop: (stores so far, completed) *)
-Fixpoint dict_decode_indices (fuel : nat) (a : arr) (dictSize : N) (width : nat)
+Fixpoint dict_decode_indices (fuel : nat) (a : dict_arr) (dictSize : N) (width : nat)
          (z : list N) (i count : N) : option (list N * bool) :=
   match fuel with
   | O => None
   | S f =>
       if i <? count then
-        let index := ext_get_quick z width in
+        let index := dict_ext_get_quick z width in
         if dictSize <=? index then Some ([], false)
         else
           match dict_decode_indices f a dictSize width (skipn width z) (i + 1) count with
-          | Some (l, ok) => Some (arr_get a index :: l, ok)
+          | Some (l, ok) => Some (dict_arr_get a index :: l, ok)
           | None => None
           end
       else Some ([], true)
   end.
 
-Inductive dec_res :=
-| DNull (allocs : list N)                       (* NULL / 0, nothing visible *)
-| DFuel
-| DPartial (stores : list N) (allocs : list N)  (* DecodeInto: returned 0 after these stores *)
-| DOk (out : list N) (allocs : list N).
+Inductive dict_dec_res :=
+| DictNull (allocs : list N)                       (* NULL / 0, nothing visible *)
+| DictFuel
+| DictPartial (stores : list N) (allocs : list N)  (* DecodeInto: returned 0 after these stores *)
+| DictOk (out : list N) (allocs : list N).
 
 (* varintDictDecode (after fix F12): malloc(0) is taken to succeed (glibc) *)
-Definition dict_decode (z : list N) (bufferLen : N) : dec_res :=
+Definition dict_decode (z : list N) (bufferLen : N) : dict_dec_res :=
   match dict_read_header z bufferLen with
-  | HFail al => DNull al
-  | HFuel => DFuel
-  | HOk vs dictSize count avail al =>
+  | DictHFail al => DictNull al
+  | DictHFuel => DictFuel
+  | DictHOk vs dictSize count avail al =>
       let z' := skipn (N.to_nat (bufferLen - avail)) z in
       let width := dict_index_width dictSize in
-      if avail / N.of_nat width <? count then DNull al
+      if avail / N.of_nat width <? count then DictNull al
       else
         let al' := al ++ [mul64 count 8] in
-        match dict_decode_indices (S (N.to_nat bufferLen)) (arr_of_list vs) dictSize width z' 0 count with
-        | None => DFuel
-        | Some (out, true) => DOk out al'
-        | Some (_, false) => DNull al'
+        match dict_decode_indices (S (N.to_nat bufferLen)) (dict_arr_of_list vs) dictSize width z' 0 count with
+        | None => DictFuel
+        | Some (out, true) => DictOk out al'
+        | Some (_, false) => DictNull al'
         end
   end.
 
 (* varintDictDecodeInto(buffer, bufferLen, output, maxValues) *)
-Definition dict_decode_into (z : list N) (bufferLen maxValues : N) : dec_res :=
-  if maxValues =? 0 then DNull []
+Definition dict_decode_into (z : list N) (bufferLen maxValues : N) : dict_dec_res :=
+  if maxValues =? 0 then DictNull []
   else
   match dict_read_header z bufferLen with
-  | HFail al => DNull al
-  | HFuel => DFuel
-  | HOk vs dictSize count avail al =>
-      if maxValues <? count then DNull al
+  | DictHFail al => DictNull al
+  | DictHFuel => DictFuel
+  | DictHOk vs dictSize count avail al =>
+      if maxValues <? count then DictNull al
       else
         let z' := skipn (N.to_nat (bufferLen - avail)) z in
         let width := dict_index_width dictSize in
-        if avail / N.of_nat width <? count then DNull al
+        if avail / N.of_nat width <? count then DictNull al
         else
-          match dict_decode_indices (S (N.to_nat bufferLen)) (arr_of_list vs) dictSize width z' 0 count with
-          | None => DFuel
-          | Some (out, true) => DOk out al
-          | Some (out, false) => DPartial out al
+          match dict_decode_indices (S (N.to_nat bufferLen)) (dict_arr_of_list vs) dictSize width z' 0 count with
+          | None => DictFuel
+          | Some (out, true) => DictOk out al
+          | Some (out, false) => DictPartial out al
           end
   end.
 
 (* EXTRACT: dict_build dict_find dict_lookup dict_encode_with_dict dict_encode
    dict_ret dict_encoded_size_with_dict dict_encoded_size dict_get_stats
-   dict_decode dict_decode_into d_values d_size d_index_width *)
+   dict_decode dict_decode_into dct_values dct_size dct_index_width *)
